@@ -11,9 +11,10 @@ RULE = ('the C04 capacity boundaries (exact-fit and one-less lengths for every l
         'table; the monitor issues the paired call (boost off) itself and compares versions; also make_sequence with '
         'boost off; distinct = (version, level in matrix, requested level, boost) combinations observed')
 ASSUMPTIONS = common.ASSUME_QR
-REQUIRED = ['evaluations', 'encode_observed', 'symbols_decoded', 'paired_calls', 'boost_raised_level', 'boost_off_observed',
+REQUIRED = ['cases_under_python_O', 'evaluations', 'encode_observed', 'symbols_decoded', 'paired_calls', 'boost_raised_level', 'boost_off_observed',
             'sequence_symbols_boost_checked', 'sequence_symbols_boost_raised']
 TIMEOUT = {'quick': 3600, 'thorough': 21600}
+OPT_SLICE = {'quick': 120, 'thorough': 1500}     # cases re-run by one more worker under python -O (core.run_sharded)
 
 
 def gen_cases(tier, seed):
